@@ -414,7 +414,15 @@ def cu_gen_stream(rng) -> list[tuple[str, str]]:
             parts.append(('lex', rng.choice(['*', ')', '(', '+', '- ', '1 +', '( 2', '/ 3'])))
         else:
             parts.append(('Currency', rng.choice(CU_CURS)))
-    return parts
+    # a date directly after a dangling operator / open parenthesis is not lexed as a DATE there (the contextual lexer
+    # expects a number: `+ 2001-02-03` is the expression +2001 - 02 - 03), so the token kinds given to the model would
+    # not be the real lexing: such streams are not generated
+    out = []
+    for kind, text in parts:
+        if kind == 'Date' and out and out[-1][0] == 'lex' and out[-1][1].rstrip()[-1:] in ('+', '-', '*', '/', '('):
+            continue
+        out.append((kind, text))
+    return out
 
 
 CU_FIXED_STREAMS = [
